@@ -78,6 +78,19 @@ NEEDS_E = {
  "C20": ("C20", "host selection uses the URI authority first for every version", "HTTP/1.x request in absolute form whose authority differs from its Host header"),
 }
 
+NEEDS_F = {
+ "C01": ("C01", "WhenReady::drop no longer checks is_open before handing the connection back", "HTTP/1.1: request A in flight, request B waiting with its own connect pending, A's connection closes (A cancelled mid-flight or Connection: close): B is handed the dead connection and fails"),
+ "C02": ("C02", "the readiness wait of a released connection is wrapped in tokio::time::timeout(idle_timeout); on expiry WhenReady is dropped, which returns the still-busy connection", "idle_timeout Some(t>0), a connection type whose is_open stays true while busy, busy for longer than the idle timeout, another request waiting or arriving"),
+ "C03": ("C03", "Pool::checkout flags a waiter as depending on the in-flight attempt only for multiplexed requests", "an HTTP/1.1 request arriving while an HTTP/2 attempt for the origin is in flight, the attempt then fails or its owner is cancelled: the HTTP/1.1 waiter is never released"),
+ "C04": ("C04 (same change as c01d)", "PinnedDrop of Checkout cancels the in-flight marker even when the attempt is continued in the background", "HTTP/2 attempt owner polled, then cancelled before its dial completes, another HTTP/2 request while the background attempt is pending: second dial"),
+ "C05": ("C05", "IdleConnections::pop takes a fast path without the is_open filter when no expiry is configured", "idle_timeout None or zero, a connection handed back open, closed by the peer while idle, then checked out"),
+ "C07": ("C07", "the shutdown broadcast uses tokio Notify::notify_waiters instead of the watch channel: a connection driver not yet polled when the signal fires never learns of it", "the signal resolving between Executor::execute(driver) and the driver's first poll"),
+ "C09": ("C09", "the TLS acceptor drives the handshake to completion inside poll_accept", "TLS-wrapped acceptor, one client stalling its handshake while connected: later clients are not accepted"),
+ "C14": ("C14", "PoolInner::push iterates waiters with drain(..): returning after the first taker drops the senders of everyone queued behind", "HTTP/1.1, two requests waiting on their own dials, one release serves the first; a further release is not offered to the second"),
+ "C15": ("C15", "room is checked at release (Pooled::drop) and push inserts unconditionally later (check-then-act across two lock acquisitions)", "two or more HTTP/1.1 connections to one origin whose releases overlap, idle + overlapping releases above max_idle_per_host >= 1"),
+ "C18": ("C18 (same change as c01/c08)", "server sniffer: `filled` recorded only after the read loop", "a partial read matching the preface followed by a Pending read"),
+}
+
 import sys
 ROUND = sys.argv[1] if len(sys.argv) > 1 else ""
 if ROUND == "b":
@@ -92,14 +105,17 @@ if ROUND == "d":
 if ROUND == "e":
     NEEDS = NEEDS_E
     SEEDROOT = '/tmp/seed5'
+if ROUND == "f":
+    NEEDS = NEEDS_F
+    SEEDROOT = '/tmp/seed6'
 confirm = {}
-for f in ([SEEDROOT + '/confirm.log'] if ROUND in ('c','d','e') else glob.glob('/tmp/seed/r2_confirm*.log') if ROUND == 'b' else glob.glob('/tmp/seed/confirm_*.log') + glob.glob('/tmp/seed/confirm_single_*.log')):
+for f in ([SEEDROOT + '/confirm.log'] if ROUND in ('c','d','e','f') else glob.glob('/tmp/seed/r2_confirm*.log') if ROUND == 'b' else glob.glob('/tmp/seed/confirm_*.log') + glob.glob('/tmp/seed/confirm_single_*.log')):
     for l in open(f):
         m = re.match(r'CONFIRM (C\d+): suite (with|without) change \(incl\. demo\): (.*)', l)
         if m:
             confirm.setdefault(m.group(1), {})[m.group(2)] = m.group(3).strip()
 evals = {}
-for f in ([SEEDROOT + '/eval.log'] if ROUND in ('c','d','e') else sorted(glob.glob('/tmp/seed/r2_eval*.log')) if ROUND == 'b' else sorted(glob.glob('/tmp/seed/eval_*.log'))):
+for f in ([SEEDROOT + '/eval.log'] if ROUND in ('c','d','e','f') else sorted(glob.glob('/tmp/seed/r2_eval*.log')) if ROUND == 'b' else sorted(glob.glob('/tmp/seed/eval_*.log'))):
     for l in open(f):
         m = re.match(r'(C\d+)\.out/patch\.diff: caught by:(.*)\| machinery:(.*)\| silent:(.*)', l)
         if m:
@@ -141,7 +157,7 @@ for sid, (prop, change, needs) in sorted(NEEDS.items()):
 
 if ROUND:
     with open('/verif/seeded/README.md', 'a') as f:
-        f.write(("\nRound 5 (third change for the input- and time-quantified properties; all earlier ideas named):\n\n|" if ROUND == "e" else "\nRound 4 (pool, server and adapter properties again; both earlier ideas were named and had to be avoided):\n\n|" if ROUND == "d" else "\nRound 3 (properties that had one seed so far; the known idea was named and had to be avoided):\n\n|" if ROUND == "c" else "\nRound 2 (sub-agents were told which kind of defect already existed for the property and asked for a different one):\n\n|") + " seed | aimed at | change | needs | caught by (quick tier) |\n|---|---|---|---|---|\n")
+        f.write(("\nRound 6 (fourth change for the pool, server and adapter properties; all earlier ideas named):\n\n|" if ROUND == "f" else "\nRound 5 (third change for the input- and time-quantified properties; all earlier ideas named):\n\n|" if ROUND == "e" else "\nRound 4 (pool, server and adapter properties again; both earlier ideas were named and had to be avoided):\n\n|" if ROUND == "d" else "\nRound 3 (properties that had one seed so far; the known idea was named and had to be avoided):\n\n|" if ROUND == "c" else "\nRound 2 (sub-agents were told which kind of defect already existed for the property and asked for a different one):\n\n|") + " seed | aimed at | change | needs | caught by (quick tier) |\n|---|---|---|---|---|\n")
         for sid, prop, change, needs, caught in rows:
             f.write(f"| {sid.lower()} | {prop} | {change} | {needs} | {' '.join(caught) if caught else '—'} |\n")
     print("kept", len(rows)); sys.exit(0)
